@@ -66,6 +66,24 @@ pub fn kind(m: &M) -> &'static str {
     }
 }
 
+thread_local! {
+    /// how the model announces the length of its containers: 0 = exactly (like serde_derive), 1..=4 = wrongly (a hand-written
+    /// Serialize may do that; the announced length is not data, every element handed over afterwards still is)
+    static LIE: std::cell::Cell<u8> = const { std::cell::Cell::new(0) };
+}
+
+/// the announced length of a container of `len` elements; never 0 for a non-empty one and never huge (serde_json writes
+/// "[]" at once for an announced 0, and a serializer may reserve the announced capacity)
+fn ann(len: usize) -> usize {
+    match LIE.with(|l| l.get()) {
+        0 => len,
+        1 => len.min(1),
+        2 => len * 2 + 3,
+        3 => if len >= 2 { len - 1 } else { len },
+        _ => len + 1,
+    }
+}
+
 impl Serialize for M {
     fn serialize<S: Serializer>(&self, s: S) -> Result<S::Ok, S::Error> {
         match self {
@@ -93,35 +111,35 @@ impl Serialize for M {
             M::NewtypeStruct(n, x) => s.serialize_newtype_struct(n, &**x),
             M::NewtypeVariant(n, i, v, x) => s.serialize_newtype_variant(n, *i, v, &**x),
             M::Seq(xs) => {
-                let mut q = s.serialize_seq(Some(xs.len()))?;
+                let mut q = s.serialize_seq(Some(ann(xs.len())))?;
                 for x in xs {
                     q.serialize_element(x)?;
                 }
                 q.end()
             }
             M::Tuple(xs) => {
-                let mut q = s.serialize_tuple(xs.len())?;
+                let mut q = s.serialize_tuple(ann(xs.len()))?;
                 for x in xs {
                     q.serialize_element(x)?;
                 }
                 q.end()
             }
             M::TupleStruct(n, xs) => {
-                let mut q = s.serialize_tuple_struct(n, xs.len())?;
+                let mut q = s.serialize_tuple_struct(n, ann(xs.len()))?;
                 for x in xs {
                     q.serialize_field(x)?;
                 }
                 q.end()
             }
             M::TupleVariant(n, i, v, xs) => {
-                let mut q = s.serialize_tuple_variant(n, *i, v, xs.len())?;
+                let mut q = s.serialize_tuple_variant(n, *i, v, ann(xs.len()))?;
                 for x in xs {
                     q.serialize_field(x)?;
                 }
                 q.end()
             }
             M::Map(kvs) => {
-                let mut q = s.serialize_map(Some(kvs.len()))?;
+                let mut q = s.serialize_map(Some(ann(kvs.len())))?;
                 for (k, v) in kvs {
                     q.serialize_entry(k, v)?;
                 }
@@ -129,7 +147,7 @@ impl Serialize for M {
             }
             // like serde_derive: the announced length counts the fields that are not skipped
             M::Struct(n, fs) => {
-                let mut q = s.serialize_struct(n, fs.iter().filter(|(_, v)| !matches!(v, M::Skipped)).count())?;
+                let mut q = s.serialize_struct(n, ann(fs.iter().filter(|(_, v)| !matches!(v, M::Skipped)).count()))?;
                 for (k, v) in fs {
                     match v {
                         M::Skipped => q.skip_field(k)?,
@@ -139,7 +157,7 @@ impl Serialize for M {
                 q.end()
             }
             M::StructVariant(n, i, v, fs) => {
-                let mut q = s.serialize_struct_variant(n, *i, v, fs.iter().filter(|(_, v)| !matches!(v, M::Skipped)).count())?;
+                let mut q = s.serialize_struct_variant(n, *i, v, ann(fs.iter().filter(|(_, v)| !matches!(v, M::Skipped)).count()))?;
                 for (k, x) in fs {
                     match x {
                         M::Skipped => q.skip_field(k)?,
@@ -437,6 +455,8 @@ fn judge(ctx: &mut Ctx, m: &M, family: &str) {
             }
             ctx.sample(&format!("faithful:{cell}"), || json!({"model": clip(format!("{m:?}"), 200), "image": clip(format!("{g:?}"), 200)}));
         }
+        // a serializer may refuse a container whose announced length was wrong; what it may not do is accept it and lose entries
+        (Image::Val(_), Err(_)) if LIE.with(|l| l.get()) != 0 => ctx.hit("outcome:misreported-length-refused"),
         (Image::Val(_), Err(e)) => ctx.violation(format!("C13 serializable-value-refused {}", culprit_err(m)), format!("serialization failed: {e}"), case(e.to_string())),
         (Image::MustFail, Err(_)) => {
             ctx.hit("outcome:error-as-required");
@@ -854,6 +874,45 @@ fn derived(ctx: &mut Ctx) {
     ctx.rng = rng;
 }
 
+/// containers whose announced length is wrong (under by one, 1 for everything, over by one, more than double)
+fn misreported_lengths(ctx: &mut Ctx, sc: &[M]) {
+    let mut rng = ctx.rng.clone();
+    for lie in 1..=4u8 {
+        for i in 0..ctx.tier.of(700, 7_000) {
+            let m = match i % 4 {
+                0 => gen(&mut rng, 2, sc),
+                1 => gen(&mut rng, 3, sc),
+                2 => {
+                    // one container of every kind around 2..6 scalars
+                    let n = 2 + rng.below(5);
+                    let xs: Vec<M> = (0..n).map(|_| sc[rng.below(sc.len())].clone()).collect();
+                    let fs: Vec<(&'static str, M)> = ["a", "b", "c", "d", "e", "f"].iter().take(n).cloned().zip(xs.iter().cloned()).collect();
+                    match rng.below(7) {
+                        0 => M::Seq(xs),
+                        1 => M::Tuple(xs),
+                        2 => M::TupleStruct("T", xs),
+                        3 => M::TupleVariant("E", 1, "V", xs),
+                        4 => M::Struct("S", fs),
+                        5 => M::StructVariant("E", 2, "W", fs),
+                        _ => M::Map(fs.into_iter().map(|(k, v)| (M::Str(k.to_string()), v)).collect()),
+                    }
+                }
+                _ => gen(&mut rng, 4, sc),
+            };
+            let mut containers = 0;
+            walk(&m, &mut |x| containers += matches!(x, M::Seq(_) | M::Tuple(_) | M::TupleStruct(..) | M::TupleVariant(..) | M::Map(_) | M::Struct(..) | M::StructVariant(..)) as usize);
+            if containers == 0 {
+                continue;
+            }
+            LIE.with(|l| l.set(lie));
+            judge(ctx, &m, "misreported-length");
+            LIE.with(|l| l.set(0));
+            ctx.hit(&format!("misreported-length:mode{lie}"));
+        }
+    }
+    ctx.rng = rng;
+}
+
 fn run(ctx: &mut Ctx) {
     let sc = scalars();
     // every scalar alone, under every wrapper, and under every wrapper twice; Fail at every position
@@ -952,6 +1011,7 @@ fn run(ctx: &mut Ctx) {
             }
         }
     }
+    misreported_lengths(ctx, &sc);
     // random models to depth 5
     let mut rng = ctx.rng.clone();
     for _ in 0..ctx.tier.of(150_000, 1_500_000) {
@@ -976,6 +1036,7 @@ fn finish(m: &Merged, tier: Tier) -> Finish {
     f.floors.push(floor(format!("compared with serde_json: {}", m.c("outcome:compared-with-serde_json")), m.c("outcome:compared-with-serde_json") >= tier.of(5_000, 50_000)));
     f.floors.push(floor(format!("required errors observed: {}", m.c("outcome:error-as-required")), m.c("outcome:error-as-required") >= 1_000));
     f.floors.push(floor(format!("unsupported keys refused: {}", m.c("outcome:unsupported-key-refused")), m.c("outcome:unsupported-key-refused") >= 100));
+    f.floors.push(floor(format!("containers with a misreported length: {} in {} modes (refused outright: {})", m.c("family:misreported-length"), m.prefix_count("misreported-length:mode"), m.c("outcome:misreported-length-refused")), m.c("family:misreported-length") >= tier.of(10_000, 100_000) && m.prefix_count("misreported-length:mode") == 4));
     f.extras.insert("kinds_hit".into(), json!(kinds));
     f.extras.insert("kinds".into(), json!(m.prefix_map("kind:")));
     f.extras.insert("outcomes".into(), json!(m.prefix_map("outcome:")));
